@@ -233,39 +233,51 @@ def SavedV (s : St) : Prop := (!s.plan.isEmpty || s.ipt) = true → saveConfirme
 def SavedR (s : St) : Prop := s.plan.isEmpty = false → scpConfirmed "routing" s.tr
 /-- Linux: if iptables changed, the packet-filter start-up file was copied successfully -/
 def SavedT (s : St) : Prop := s.ipt = true → scpConfirmed "iptables" s.tr
+/-- Linux: if iptables changed, the last activation command (`mv` of the new packet-filter file) was sent -/
+def MvSent (s : St) : Prop :=
+  s.ipt = true → ["mv -f /etc/network/packet-filter.new /etc/network/packet-filter"] ∈ changeSends s.tr
+/-- compare: if a difference was computed, `comp: *** device changed ***` is in the log -/
+def ChangedLogged (s : St) : Prop := (!s.plan.isEmpty || s.ipt) = true → s.tr.contains Ev.logChanged = true
 
 structure Facts where
   S : Bool
   V : Bool
   R : Bool
   T : Bool
+  C : Bool
+  M : Bool
   deriving DecidableEq, Repr
 
-def Facts.top : Facts := ⟨true, true, true, true⟩
-def Facts.bot : Facts := ⟨false, false, false, false⟩
-def Facts.meet (a b : Facts) : Facts := ⟨a.S && b.S, a.V && b.V, a.R && b.R, a.T && b.T⟩
-def Facts.join (a b : Facts) : Facts := ⟨a.S || b.S, a.V || b.V, a.R || b.R, a.T || b.T⟩
+def Facts.top : Facts := ⟨true, true, true, true, true, true⟩
+def Facts.bot : Facts := ⟨false, false, false, false, false, false⟩
+def Facts.meet (a b : Facts) : Facts := ⟨a.S && b.S, a.V && b.V, a.R && b.R, a.T && b.T, a.C && b.C, a.M && b.M⟩
+def Facts.join (a b : Facts) : Facts := ⟨a.S || b.S, a.V || b.V, a.R || b.R, a.T || b.T, a.C || b.C, a.M || b.M⟩
 def Facts.le (need have_ : Facts) : Bool :=
-  (!need.S || have_.S) && (!need.V || have_.V) && (!need.R || have_.R) && (!need.T || have_.T)
+  (!need.S || have_.S) && (!need.V || have_.V) && (!need.R || have_.R) && (!need.T || have_.T) && (!need.C || have_.C) && (!need.M || have_.M)
 
 structure Holds (f : Facts) (st : St) : Prop where
   hS : f.S = true → SentAll st
   hV : f.V = true → SavedV st
   hR : f.R = true → SavedR st
   hT : f.T = true → SavedT st
+  hC : f.C = true → ChangedLogged st
+  hM : f.M = true → MvSent st
 
-theorem Holds.bot (s : St) : Holds Facts.bot s := ⟨by simp [Facts.bot], by simp [Facts.bot], by simp [Facts.bot], by simp [Facts.bot]⟩
+theorem Holds.bot (s : St) : Holds Facts.bot s :=
+  ⟨by simp [Facts.bot], by simp [Facts.bot], by simp [Facts.bot], by simp [Facts.bot], by simp [Facts.bot], by simp [Facts.bot]⟩
 
 theorem Holds.meet_left {a b : Facts} {s : St} (h : Holds a s) : Holds (a.meet b) s :=
   ⟨fun x => h.hS (by simp [Facts.meet] at x; exact x.1), fun x => h.hV (by simp [Facts.meet] at x; exact x.1),
-   fun x => h.hR (by simp [Facts.meet] at x; exact x.1), fun x => h.hT (by simp [Facts.meet] at x; exact x.1)⟩
+   fun x => h.hR (by simp [Facts.meet] at x; exact x.1), fun x => h.hT (by simp [Facts.meet] at x; exact x.1),
+   fun x => h.hC (by simp [Facts.meet] at x; exact x.1), fun x => h.hM (by simp [Facts.meet] at x; exact x.1)⟩
 
 theorem Holds.meet_right {a b : Facts} {s : St} (h : Holds b s) : Holds (a.meet b) s :=
   ⟨fun x => h.hS (by simp [Facts.meet] at x; exact x.2), fun x => h.hV (by simp [Facts.meet] at x; exact x.2),
-   fun x => h.hR (by simp [Facts.meet] at x; exact x.2), fun x => h.hT (by simp [Facts.meet] at x; exact x.2)⟩
+   fun x => h.hR (by simp [Facts.meet] at x; exact x.2), fun x => h.hT (by simp [Facts.meet] at x; exact x.2),
+   fun x => h.hC (by simp [Facts.meet] at x; exact x.2), fun x => h.hM (by simp [Facts.meet] at x; exact x.2)⟩
 
 theorem Holds.join {a b : Facts} {s : St} (ha : Holds a s) (hb : Holds b s) : Holds (a.join b) s := by
-  refine ⟨fun x => ?_, fun x => ?_, fun x => ?_, fun x => ?_⟩ <;> simp [Facts.join] at x <;> rcases x with x | x
+  refine ⟨fun x => ?_, fun x => ?_, fun x => ?_, fun x => ?_, fun x => ?_, fun x => ?_⟩ <;> simp [Facts.join] at x <;> rcases x with x | x
   · exact ha.hS x
   · exact hb.hS x
   · exact ha.hV x
@@ -274,11 +286,15 @@ theorem Holds.join {a b : Facts} {s : St} (ha : Holds a s) (hb : Holds b s) : Ho
   · exact hb.hR x
   · exact ha.hT x
   · exact hb.hT x
+  · exact ha.hC x
+  · exact hb.hC x
+  · exact ha.hM x
+  · exact hb.hM x
 
 theorem Holds.of_le {need have_ : Facts} {s : St} (hle : Facts.le need have_ = true) (h : Holds have_ s) : Holds need s := by
   simp only [Facts.le, Bool.and_eq_true, Bool.or_eq_true, Bool.not_eq_true'] at hle
-  obtain ⟨⟨⟨h1, h2⟩, h3⟩, h4⟩ := hle
-  refine ⟨fun x => ?_, fun x => ?_, fun x => ?_, fun x => ?_⟩
+  obtain ⟨⟨⟨⟨⟨h1, h2⟩, h3⟩, h4⟩, h5⟩, h6⟩ := hle
+  refine ⟨fun x => ?_, fun x => ?_, fun x => ?_, fun x => ?_, fun x => ?_, fun x => ?_⟩
   · rcases h1 with h1 | h1; · rw [x] at h1; cases h1
     exact h.hS h1
   · rcases h2 with h2 | h2; · rw [x] at h2; cases h2
@@ -287,6 +303,10 @@ theorem Holds.of_le {need have_ : Facts} {s : St} (hle : Facts.le need have_ = t
     exact h.hR h3
   · rcases h4 with h4 | h4; · rw [x] at h4; cases h4
     exact h.hT h4
+  · rcases h5 with h5 | h5; · rw [x] at h5; cases h5
+    exact h.hC h5
+  · rcases h6 with h6 | h6; · rw [x] at h6; cases h6
+    exact h.hM h6
 
 theorem saveConfirmed_append (a l : List Ev) (h : saveConfirmed a = true) : saveConfirmed (a ++ l) = true :=
   saveConfirmed_mono a l h
@@ -298,7 +318,7 @@ theorem scpConfirmed_append (w : String) (a l : List Ev) (h : scpConfirmed w a) 
 /-- facts stay true while the script is the same and the trace only grows -/
 theorem Holds.stable {f : Facts} {s s' : St} (hx : SExt s s') (h : Holds f s) : Holds f s' := by
   obtain ⟨hp, hi, l, ht⟩ := hx
-  refine ⟨fun x => ?_, fun x => ?_, fun x => ?_, fun x => ?_⟩
+  refine ⟨fun x => ?_, fun x => ?_, fun x => ?_, fun x => ?_, fun x => ?_, fun x => ?_⟩
   · have := h.hS x
     unfold SentAll at *
     rw [hp, ht, changeSends_append]
@@ -318,14 +338,28 @@ theorem Holds.stable {f : Facts} {s s' : St} (hx : SExt s s') (h : Holds f s) : 
     rw [hi, ht]
     intro hc
     exact scpConfirmed_append _ _ _ (this hc)
+  · have := h.hC x
+    unfold ChangedLogged at *
+    rw [hp, hi, ht]
+    intro hc
+    have h1 := this hc
+    simp only [List.contains_iff_mem, List.mem_append] at h1 ⊢
+    exact Or.inl h1
+  · have := h.hM x
+    unfold MvSent at *
+    rw [hi, ht, changeSends_append]
+    intro hc
+    exact List.mem_append_left _ (this hc)
 
 /-- nothing to do: every fact holds -/
 theorem Holds.nothing (f : Facts) (s : St) (hp : s.plan.isEmpty = true) (hi : s.ipt = false) : Holds f s := by
   have hnil : s.plan = [] := by simpa using hp
-  refine ⟨fun _ => ?_, fun _ => ?_, fun _ => ?_, fun _ => ?_⟩
+  refine ⟨fun _ => ?_, fun _ => ?_, fun _ => ?_, fun _ => ?_, fun _ => ?_, fun _ => ?_⟩
   · unfold SentAll; rw [hnil]; exact List.nil_sublist _
   · unfold SavedV; rw [hp, hi]; simp
   · unfold SavedR; rw [hp]; simp
   · unfold SavedT; rw [hi]; simp
+  · unfold ChangedLogged; rw [hp, hi]; simp
+  · unfold MvSent; rw [hi]; simp
 
 end NA.C09
